@@ -17,6 +17,8 @@ CLAIMS = {
          'static analysis: interprocedural typestate/effect summaries over MIR, closure capture audit, affine provenance of offsets'),
  'C12': ('other', 'Decides the deterministic part of read filtering: valid_qual is PHRED >= min_qual on the complete 94x94 grid; the accept predicate in build and the restart predicate in roll_fwd are exact negations (8-row truth table extracted from switch edges) and test the position about to be consumed; middle_base_qual decision table; the counting filter reports Equal exactly when the observation count reaches min_count (min_count 0..7 x 9 observations) with bloom word update w|f / test w&f==f and location < range; one filter per sample shared by both files, initialised before use and consulted only for reads. The hash obligations are C16. The Bloom collision rate (<0.1%) is a probabilistic runtime quantity and is not decided.',
          'static analysis: predicate extraction from MIR switch edges + finite-domain abstract interpretation'),
+ 'C14': ('other', 'Decides: the constant-site count added to the matches excludes frequency-rejected k-mers (backward slice of the `constant` argument to its producing counter + control dependence of its increments + the user frequency filter dominates the distance computation); variant_dist over all 16x16 symbol pairs (x2 constants, plus accumulation) equals the specified SNP/mismatch formula with the 0/0 guard; each unordered pair is enumerated once with names aligned to columns (affine provenance of the ranges); collection is indexed (C11.bridge). Value range [0,1] follows from the formula and is not separately decided.',
+         'static analysis: backward slice + control dependence over MIR, finite-domain abstract interpretation, affine provenance'),
  'C15': ('proof', 'All constrained cells of IUPAC (1024), RC_IUPAC (255), is_ambiguous, base_to_prob, encode/decode/rc/valid_base and the two use sites are enumerated from const-eval and MIR and compared with the IUPAC set algebra; finite domain, complete.',
          'static analysis: const-evaluated table enumeration + finite-domain abstract interpretation of MIR'),
  'C16': ('proof', 'For every (width, k, strand mode) — 88 configurations — the packing, reverse-complement, rolling and ntHash code is abstractly interpreted over MIR with every base a pair of symbolic bits (bit-provenance domain; XOR-term domain for hashes); each obligation compares the resulting provenance vector with the specified layout, so each configuration covers all 4^k k-mers. rev_comp is checked for every size n up to W/2. N-skipping control flow is decided under C01/C12.',
